@@ -407,8 +407,13 @@ Proof.
   - auto.
   - assert (Hop : (v && is_op op_SEND op) = false) by (apply Hns; left; reflexivity).
     assert (Hns' : forall o, In o l -> (v && is_op op_SEND o) = false) by (intros; apply Hns; right; auto).
-    unfold split_step at 2. rewrite Hm. unfold split_normal. rewrite Hop.
-    destruct (ends_block v ops tg op) eqn:Ee.
+    assert (Es : split_step v ops tg st op =
+                 if ends_block v ops tg op
+                 then mkS (Block (rev (op :: s_cur st)) :: s_blocks st) []
+                          (Some (bid (Block (rev (op :: s_cur st))))) (s_edges st) MNormal (s_err st)
+                 else mkS (s_blocks st) (op :: s_cur st) (s_prev st) (s_edges st) MNormal (s_err st)).
+    { unfold split_step. rewrite Hm. unfold split_normal. rewrite Hop. reflexivity. }
+    rewrite Es. clear Es. destruct (ends_block v ops tg op) eqn:Ee.
     + match goal with |- context [fold_left _ l ?s] => destruct (IH s) as [A [B [C [D E]]]] end; simpl; auto.
       constructor; [|exact Hb]. exists (rev (s_cur st)), op. repeat split; auto.
       apply Forall_rev. exact Hc.
@@ -419,7 +424,7 @@ Lemma shape_nonempty_head : forall v ops tg b bs o l,
   shape v ops tg b -> concat (map code (b :: bs)) = o :: l -> exists c, code b = o :: c.
 Proof.
   intros v ops tg b bs o l [c [x [E _]]] H. simpl in H. rewrite E in *.
-  destruct c; simpl in H; inversion H; eauto.
+  destruct c as [|a c]; simpl in *; inversion H; subst; eexists; reflexivity.
 Qed.
 
 Lemma shape_boundary : forall v ops tg bs l1 o1 o2 l2,
@@ -528,7 +533,7 @@ Proof.
       assert (Eops' : ops = l1 ++ o1 :: ot :: l2) by (rewrite Eops, <- app_assoc; reflexivity).
       assert (Ho1 : nth_error ops k = Some o1).
       { rewrite Eops'. rewrite nth_error_app2 by lia. replace (k - length l1) with 0 by lia. reflexivity. }
-      destruct (wf_links_spec _ _ _ Hl _ _ Ho1) as [_ [Hnx _]]. simpl in Hnx.
+      destruct (wf_links_spec _ _ _ Hl _ _ Ho1) as [_ [Hnx _]]. rewrite !Nat.add_0_l in Hnx.
       assert (Elt : (S k <? length ops) = true) by (apply Nat.ltb_lt; lia).
       rewrite Elt in Hnx.
       assert (Et : N.of_nat (S k) = t) by (rewrite <- Ek; apply Nnat.N2Nat.id).
@@ -538,14 +543,288 @@ Proof.
         assert (Hin1 : In o1 ops) by (eapply nth_error_In; eauto).
         specialize (Han o1 Hin1). rewrite Hnx in Han.
         unfold ends_block. rewrite Hnx.
-        assert (Hm : memN t (targets ops) = true) by (apply memN_In; eapply targets_In; eauto).
-        rewrite Hm in *. simpl in Han.
-        destruct (no_next o1), (does_jump o1), (pops_block o1); simpl in *; auto.
-        rewrite Han. reflexivity. }
+        assert (Hm : memN t (targets ops) = true) by (apply memN_In; exact (targets_In ops o t Hin Ht)).
+        rewrite Hm in *.
+        destruct (no_next o1), (does_jump o1), (pops_block o1), (opc_at_is ops op_GET_ANEXT (Some t)), v;
+          simpl in *; congruence. }
       rewrite <- Hcat in Eops'.
       destruct (shape_boundary v ops (targets ops) bs l1 o1 ot l2 Hsh Eops' He) as [b [c [Hb Hc]]].
-      exists b, c. auto. }
+      exists b, c. split; assumption. }
   destruct G as [b [c [Hb Hc]]]. exists b, ot, c. repeat split; auto.
   rewrite Forall_forall in Hok. destruct (Hok b Hb) as [o' [c' [E1 E2]]].
-  rewrite Hc in E1. inversion E1; subst. rewrite E2. exact Hidx.
+  rewrite Hc in E1. inversion E1 as [[Eo Ec]]. rewrite E2, <- Eo. exact Hidx.
+Qed.
+
+(* ================================================================================================ *)
+(* D. cfg_utils.order_nodes, for an ARBITRARY priority function [pick] and an arbitrary predecessor map *)
+
+Definition edge_rel (es : list edge) (x y : N) : Prop := In (x, y) es.
+Definition reach (es : list edge) : N -> N -> Prop := clos_refl_trans N (edge_rel es).
+Definition keys (q : queue) : list N := map fst q.
+Definition pick_ok (pick : queue -> N) : Prop := forall q, q <> [] -> In (pick q) (keys q).
+
+Lemma nodupN_In : forall l seen y, In y (nodupN l seen) <-> In y l /\ ~ In y seen.
+Proof.
+  induction l as [|x l IH]; intros seen y; simpl.
+  - tauto.
+  - destruct (memN x seen) eqn:E.
+    + rewrite IH. apply memN_In in E. split.
+      * intros [H1 H2]. auto.
+      * intros [[H1|H1] H2]; [subst; contradiction | auto].
+    + apply memN_false in E. simpl. rewrite IH. simpl. split.
+      * intros [H|[H1 H2]]; [subst; auto | split; auto].
+      * intros [[H1|H1] H2]; [auto|].
+        destruct (N.eq_dec x y); [auto|]. right. split; auto. intros [F|F]; auto.
+Qed.
+
+Lemma outgoing_In : forall es x y, In y (outgoing es x) <-> In (x, y) es.
+Proof.
+  intros es x y. unfold outgoing. rewrite nodupN_In, in_map_iff. split.
+  - intros [[[a b] [E H]] _]. simpl in E. subst b. apply filter_In in H. destruct H as [H1 H2].
+    simpl in H2. apply N.eqb_eq in H2. subst. exact H1.
+  - intros H. split; [|intros []]. exists (x, y). split; auto. apply filter_In. split; auto.
+    simpl. apply N.eqb_refl.
+Qed.
+
+Lemma has_key_In : forall k q, has_key k q = true <-> In k (keys q).
+Proof.
+  intros k q. unfold has_key, keys. rewrite existsb_exists, in_map_iff. split.
+  - intros [e [H1 H2]]. apply N.eqb_eq in H2. exists e. auto.
+  - intros [e [H1 H2]]. exists e. split; auto. apply N.eqb_eq. auto.
+Qed.
+
+Lemma del_key_In : forall k q x, In x (keys (del_key k q)) <-> In x (keys q) /\ x <> k.
+Proof.
+  intros k q x. unfold del_key, keys. rewrite !in_map_iff. split.
+  - intros [e [H1 H2]]. apply filter_In in H2. destruct H2 as [H2 H3]. split; [exists e; auto|].
+    apply negb_true_iff, N.eqb_neq in H3. congruence.
+  - intros [[e [H1 H2]] H3]. exists e. split; auto. apply filter_In. split; auto.
+    apply negb_true_iff, N.eqb_neq. congruence.
+Qed.
+
+Lemma keys_map_snd : forall (f : N * list N -> list N) q, keys (map (fun e => (fst e, f e)) q) = keys q.
+Proof. intros. unfold keys. rewrite map_map. simpl. reflexivity. Qed.
+
+Lemma assocN_In : forall A k (l : list (N * A)) v, assocN k l = Some v -> In k (map fst l).
+Proof.
+  induction l as [|[k' v'] l IH]; simpl; intros v H; [discriminate|].
+  destruct (N.eqb k k') eqn:E.
+  - apply N.eqb_eq in E. auto.
+  - right. eauto.
+Qed.
+
+Lemma enqueue_fold : forall pm seen outs q err q' err',
+  fold_left (enqueue pm seen) outs (q, err) = (q', err') ->
+  (forall k, In k (keys q) -> In k (keys q')) /\
+  (forall k, In k (keys q') -> In k (keys q) \/ (In k outs /\ In k (map fst pm))) /\
+  (err' = 0 -> err = 0 /\ forall y, In y outs -> In y (keys q')).
+Proof.
+  induction outs as [|n outs IH]; intros q err q' err' H; simpl in H.
+  - inversion H; subst. split; [auto|]. split; [auto|]. intros He. split; [exact He|]. intros y [].
+  - destruct (has_key n q) eqn:Ek.
+    + destruct (IH _ _ _ _ H) as [A [B C]]. split; [exact A|]. split.
+      * intros k Hk. destruct (B k Hk) as [?|[? ?]]; auto. right. split; auto. right. auto.
+      * intros He. destruct (C He) as [C1 C2]. split; [exact C1|].
+        intros y [Hy|Hy]; [subst; apply A; apply has_key_In; exact Ek | apply C2; auto].
+    + destruct (assocN n pm) as [p|] eqn:Ep.
+      * destruct (IH _ _ _ _ H) as [A [B C]]. split; [|split].
+        -- intros k Hk. apply A. unfold keys. rewrite map_app. apply in_or_app. left. exact Hk.
+        -- intros k Hk. destruct (B k Hk) as [Hq|[? ?]].
+           ++ unfold keys in Hq. rewrite map_app in Hq. apply in_app_or in Hq. destruct Hq as [Hq|[Hq|[]]]; auto.
+              simpl in Hq. subst k. right. split; [left; reflexivity | eapply assocN_In; eauto].
+           ++ right. split; auto. right. auto.
+        -- intros He. destruct (C He) as [C1 C2]. split; [exact C1|].
+           intros y [Hy|Hy]; [|apply C2; auto]. subst y. apply A. unfold keys. rewrite map_app.
+           apply in_or_app. right. left. reflexivity.
+      * destruct (IH _ _ _ _ H) as [A [B C]]. split; [exact A|]. split.
+        -- intros k Hk. destruct (B k Hk) as [?|[? ?]]; auto. right. split; auto. right. auto.
+        -- intros He. destruct (C He) as [F _]. discriminate.
+Qed.
+
+Fixpoint pf_rev (root : N) (es : list edge) (ro : list N) : Prop :=
+  match ro with
+  | [] => True
+  | b :: earlier => ((earlier = [] /\ b = root) \/ exists p, In p earlier /\ In (p, b) es) /\ pf_rev root es earlier
+  end.
+
+Record oinv (root : N) (pm : list (N * list N)) (es : list edge) (s : ost) : Prop := {
+  oi_nodup : NoDup (o_order s);
+  oi_seen : forall x, In x (o_seen s) <-> In x (o_order s);
+  oi_reach : forall x, In x (o_order s) \/ In x (keys (o_queue s)) -> reach es root x;
+  oi_closed : o_err s = 0 ->
+              (In root (o_seen s) \/ In root (keys (o_queue s))) /\
+              forall x y, In x (o_order s) -> In (x, y) es -> In y (o_seen s) \/ In y (keys (o_queue s));
+  oi_pf : pf_rev root es (o_order s);
+  oi_qpred : forall k, In k (keys (o_queue s)) ->
+             (o_order s = [] /\ k = root) \/ exists p, In p (o_order s) /\ In (p, k) es;
+  oi_init : o_order s = [] -> keys (o_queue s) = [root];
+  oi_nodes : forall k, In k (o_order s) \/ In k (keys (o_queue s)) -> In k (map fst pm)
+}.
+
+Lemma ostep_inv : forall pick root pm es s,
+  pick_ok pick -> oinv root pm es s -> ofin s = false -> oinv root pm es (ostep pick pm es s).
+Proof.
+  intros pick root pm es s Hpick I Hfin.
+  unfold ofin in Hfin. apply orb_false_elim in Hfin. destruct Hfin as [He Hq].
+  apply negb_false_iff, Nat.eqb_eq in He.
+  assert (Hne : o_queue s <> []) by (destruct (o_queue s); [discriminate | discriminate]).
+  pose proof (Hpick _ Hne) as Hnode.
+  unfold ostep. set (node := pick (o_queue s)) in *. set (q1 := del_key node (o_queue s)).
+  destruct I as [Ind Iseen Ireach Iclosed Ipf Iqp Iinit Inodes].
+  destruct (memN node (o_seen s)) eqn:Es.
+  - (* already seen: just dropped from the queue *)
+    apply memN_In in Es.
+    constructor; simpl; auto.
+    + intros x [H|H]; apply Ireach; auto. apply del_key_In in H. tauto.
+    + intros He'. destruct (Iclosed He') as [Hr Hc]. split.
+      * destruct Hr as [Hr|Hr]; auto. destruct (N.eq_dec root node) as [E|E]; [subst; auto|].
+        right. apply del_key_In. auto.
+      * intros x y Hx Hxy. destruct (Hc x y Hx Hxy) as [H|H]; auto.
+        destruct (N.eq_dec y node) as [E|E]; [rewrite E; auto|]. right. apply del_key_In. auto.
+    + intros k Hk. apply del_key_In in Hk. apply Iqp. tauto.
+    + intros Ho. exfalso. apply Iseen in Es. rewrite Ho in Es. exact Es.
+    + intros k [H|H]; apply Inodes; auto. apply del_key_In in H. tauto.
+  - apply memN_false in Es.
+    destruct (fold_left (enqueue pm (node :: o_seen s)) (outgoing es node)
+                (map (fun e => (fst e, removeN node (snd e))) q1, o_err s)) as [q3 err'] eqn:Ef.
+    destruct (enqueue_fold _ _ _ _ _ _ _ Ef) as [A [B C]].
+    rewrite keys_map_snd in A, B.
+    assert (Hq1 : forall k, In k (keys q1) <-> In k (keys (o_queue s)) /\ k <> node)
+      by (intro; apply del_key_In).
+    constructor; simpl.
+    + constructor; auto. intro F. apply Es. apply Iseen. exact F.
+    + intros x. rewrite Iseen. tauto.
+    + intros x [[H|H]|H].
+      * subst x. apply Ireach. auto.
+      * apply Ireach. auto.
+      * destruct (B x H) as [H'|[H' _]].
+        -- apply Ireach. right. apply Hq1 in H'. tauto.
+        -- apply rt_trans with node; [apply Ireach; auto|]. apply rt_step. apply outgoing_In. exact H'.
+    + intros He'. destruct (C He') as [He0 Hout]. destruct (Iclosed He0) as [Hr Hc]. split.
+      * destruct Hr as [Hr|Hr]; auto. destruct (N.eq_dec root node) as [E|E]; [auto|].
+        right. apply A. apply Hq1. auto.
+      * intros x y [Hx|Hx] Hxy.
+        -- subst x. right. apply Hout. apply outgoing_In. exact Hxy.
+        -- destruct (Hc x y Hx Hxy) as [H|H]; auto.
+           destruct (N.eq_dec y node) as [E|E]; [auto|]. right. apply A. apply Hq1. auto.
+    + split; [|exact Ipf]. destruct (Iqp node Hnode) as [[H1 H2]|H]; [left; split; assumption | right; exact H].
+    + intros k Hk. right. destruct (B k Hk) as [H|[H _]].
+      * apply Hq1 in H. destruct H as [H Hn]. destruct (Iqp k H) as [[H1 H2]|[p [Hp Hpk]]].
+        -- exfalso. rewrite (Iinit H1) in Hnode, H. simpl in Hnode, H.
+           destruct Hnode as [Hnode|[]], H as [H|[]]. congruence.
+        -- exists p. auto.
+      * exists node. split; auto. apply outgoing_In. exact H.
+    + discriminate.
+    + intros k [[H|H]|H].
+      * subst k. apply Inodes. auto.
+      * apply Inodes. auto.
+      * destruct (B k H) as [H'|[_ H']]; auto. apply Inodes. right. apply Hq1 in H'. tauto.
+Qed.
+
+Lemma pf_rev_head : forall root es ro, pf_rev root es ro -> ro <> [] -> exists l, rev ro = root :: l.
+Proof.
+  induction ro as [|b earlier IH]; intros H Hne; [congruence|].
+  simpl in H. destruct H as [Hb Hr]. destruct earlier as [|e earlier'].
+  - destruct Hb as [[_ Hb]|[p [[] _]]]. subst. exists []. reflexivity.
+  - destruct (IH Hr ltac:(discriminate)) as [l Hl]. exists (l ++ [b]).
+    change (rev (b :: e :: earlier')) with (rev (e :: earlier') ++ [b]). rewrite Hl. reflexivity.
+Qed.
+
+Lemma pf_rev_positional : forall root es ro, pf_rev root es ro ->
+  forall l1 b l2, rev ro = l1 ++ b :: l2 -> l1 <> [] -> exists p, In p l1 /\ In (p, b) es.
+Proof.
+  induction ro as [|x earlier IH]; intros H l1 b l2 E Hne.
+  - destruct l1; discriminate.
+  - simpl in H, E. destruct H as [Hx Hr].
+    destruct (exists_last (l := b :: l2) ltac:(discriminate)) as [m [z Em]].
+    rewrite Em in E. rewrite app_assoc in E. apply app_inj_tail in E. destruct E as [E Ez]. subst z.
+    destruct m as [|b' m'].
+    + (* b is the op just added *)
+      simpl in Em. inversion Em; subst. rewrite app_nil_r in E. subst l1.
+      destruct Hx as [[He _]|[p [Hp Hpe]]].
+      * subst earlier. simpl in Hne. congruence.
+      * exists p. split; auto. apply in_rev in Hp. exact Hp.
+    + simpl in Em. inversion Em; subst. eapply IH; eauto.
+Qed.
+
+Lemma set_assoc_keys : forall A k (v : A) l, map fst (set_assoc k v l) = map fst l.
+Proof.
+  induction l as [|[k' v'] l IH]; simpl; auto. destruct (N.eqb k k') eqn:E; simpl.
+  - apply N.eqb_eq in E. subst. reflexivity.
+  - rewrite IH. reflexivity.
+Qed.
+
+Lemma compute_predecessors_keys : forall nodes es pm,
+  compute_predecessors nodes es = Ok pm -> map fst pm = nodes.
+Proof.
+  intros nodes es pm H. unfold compute_predecessors in H.
+  set (s0 := mkP (map (fun n => (n, [n])) nodes) [] nodes [] 0) in *.
+  assert (P : map fst (p_map (run (pstep es) pfin fuel_depth s0)) = nodes).
+  { apply (run_inv _ (pstep es) pfin (fun s => map fst (p_map s) = nodes)).
+    - intros s Hs _. unfold pstep. destruct (p_todo s) as [|[f n] rest].
+      + destruct (p_starts s); auto. destruct (memN n (p_disc s)); auto.
+      + destruct (assocN n (p_map s)); [|exact Hs]. destruct (assocN f (p_map s)); [|exact Hs].
+        destruct (length l =? length (unionN l l0)); simpl; auto. rewrite set_assoc_keys. exact Hs.
+    - simpl. rewrite map_map. simpl. apply map_id. }
+  destruct (p_err (run (pstep es) pfin fuel_depth s0)); try discriminate.
+  destruct (pfin (run (pstep es) pfin fuel_depth s0)); try discriminate.
+  inversion H; subst. exact P.
+Qed.
+
+Lemma order_nodes_gen_spec : forall pick root rest es order,
+  pick_ok pick ->
+  order_nodes_gen pick (root :: rest) es = Ok order ->
+  NoDup order /\
+  (exists tl, order = root :: tl) /\
+  (forall b, In b order <-> reach es root b) /\
+  (forall b, In b order -> In b (root :: rest)) /\
+  (forall l1 b l2, order = l1 ++ b :: l2 -> l1 <> [] -> exists p, In p l1 /\ In (p, b) es).
+Proof.
+  intros pick root rest es order Hpick H. unfold order_nodes_gen in H.
+  destruct (compute_predecessors (root :: rest) es) as [pm|] eqn:Epm; [|discriminate].
+  simpl in H. pose proof (compute_predecessors_keys _ _ _ Epm) as Hkeys.
+  destruct (assocN root pm) as [rp|] eqn:Erp; [|discriminate].
+  set (s0 := mkO [(root, rp)] [] [] 0) in *.
+  assert (I : oinv root pm es (run (ostep pick pm es) ofin fuel_depth s0)).
+  { apply run_inv.
+    - intros s Hs Hf. apply ostep_inv; auto.
+    - constructor; simpl; auto.
+      + constructor.
+      + tauto.
+      + intros x [[]|[Hx|[]]]. subst. apply rt_refl.
+      + intros _. split; [right; left; reflexivity | intros x y []].
+      + intros k [Hk|[]]. left. auto.
+      + intros k [[]|[Hk|[]]]. subst. eapply assocN_In; eauto. }
+  set (s := run (ostep pick pm es) ofin fuel_depth s0) in *.
+  destruct (o_err s) eqn:Eerr; [|discriminate].
+  destruct (ofin s) eqn:Efin; [|discriminate].
+  match type of H with (if ?c then _ else _) = _ => destruct c; [|discriminate] end.
+  inversion H; subst order. clear H.
+  unfold ofin in Efin. rewrite Eerr in Efin. simpl in Efin.
+  destruct (o_queue s) as [|e q] eqn:Eq; [|discriminate].
+  destruct I as [Ind Iseen Ireach Iclosed Ipf Iqp Iinit Inodes]. rewrite Eq in *. simpl in *.
+  destruct (Iclosed Eerr) as [Hr Hc].
+  assert (Hroot : In root (o_order s)) by (destruct Hr as [Hr|[]]; apply Iseen; exact Hr).
+  split; [apply NoDup_rev; exact Ind|].
+  split; [apply pf_rev_head with es; auto; intro F; rewrite F in Hroot; exact Hroot|].
+  split; [|split].
+  - intros b. rewrite <- in_rev. split.
+    + intros Hb. apply Ireach. auto.
+    + intros Hb. apply clos_rt_rtn1 in Hb. induction Hb as [|y z Hyz Hb IH]; auto.
+      destruct (Hc y z IH Hyz) as [Hz|[]]. apply Iseen. exact Hz.
+  - intros b Hb. apply in_rev in Hb. rewrite <- Hkeys. apply Inodes. auto.
+  - apply pf_rev_positional with root. exact Ipf.
+Qed.
+
+(* the concrete priority of order_nodes, min over (len(predecessors), node.id), picks a queued node *)
+Lemma pick_min_from_In : forall q best, In (pick_min_from best q) (best :: q).
+Proof.
+  induction q as [|e q IH]; intros best; simpl; auto.
+  destruct (IH (if prio_lt e best then e else best)) as [H|H]; auto.
+  destruct (prio_lt e best); auto.
+Qed.
+
+Lemma pick_min_ok : pick_ok pick_min.
+Proof.
+  intros [|e q] Hne; [congruence|]. unfold pick_min, keys. apply in_map. apply pick_min_from_In.
 Qed.
